@@ -132,8 +132,11 @@ func (c *countDriver) Update(k string, r *rspb.Release) error {
 	c.w("update " + k)
 	return c.D.Update(k, r)
 }
-func (c *countDriver) Delete(k string) (*rspb.Release, error) { c.w("delete " + k); return c.D.Delete(k) }
-func (c *countDriver) Get(k string) (*rspb.Release, error)    { c.r(); return c.D.Get(k) }
+func (c *countDriver) Delete(k string) (*rspb.Release, error) {
+	c.w("delete " + k)
+	return c.D.Delete(k)
+}
+func (c *countDriver) Get(k string) (*rspb.Release, error) { c.r(); return c.D.Get(k) }
 func (c *countDriver) List(f func(*rspb.Release) bool) ([]*rspb.Release, error) {
 	c.r()
 	return c.D.List(f)
@@ -255,6 +258,7 @@ func oddTokens(ls []Leaf) int {
 		switch {
 		case l.V == "true", l.V == "false", l.V == "{}", strings.HasPrefix(l.V, "s:"):
 		case l.V == "n:0", l.V == "n:1", l.V == "n:2", l.V == "n:3":
+		case l.V == "n:9007199254740992", l.V == "n:9007199254740993": // 2^53, 2^53+1 (spec/Schema.tla Big, Big1)
 		default:
 			n++
 		}
@@ -488,12 +492,12 @@ func histOps(c *Case, tmp, only string) []OpObs {
 	// the values in force do not depend on how the first revision came about (same chart version, same stored
 	// values): the twin of a mode is run once and shared
 	type twin struct {
-		ok                bool
-		err               string
-		enabled           [][]string
-		finals            []Seen
-		lib               []LibVerdict
-		odd               int
+		ok      bool
+		err     string
+		enabled [][]string
+		finals  []Seen
+		lib     []LibVerdict
+		odd     int
 	}
 	twins := map[string]*twin{}
 	for _, first := range []string{"skipinstall", "laxinstall"} {
